@@ -205,6 +205,25 @@ state (`abs r = ⟨r.buf ++ r.src, r.consumed⟩`) — so whatever is proved abo
 holds for decoding from a stream, for every chunking. `fill_some` / `fill_none` are the loop's
 contract (nothing lost, nothing counted, fails iff fewer than `len` bytes are left).
 
+*Routing, channels, the transfer performative's size* (third session). `Amqp/Routing.lean` is the
+session's three tables (our handles: a slab; link names: `Some` relay while the peer's attach is
+awaited; the peer's handles: a map to relays) with `allocate_link`, `deallocate_link`, the peer's
+attach / detach and the lookup every other link frame goes through; an endpoint is a number that is
+never reused, its output handle is. `routes_as_designated` is a refinement proof: for every history —
+the peer picking handles as it likes, re-using them, our output handles re-used by new links while an
+old link's entry still awaits the peer's detach — a frame is handed to the endpoint named by the last
+attach accepted on its handle and refused as unattached when there is none; `one_handle_per_endpoint`
+(by an invariant over the three tables) says two handles of the peer never lead to one endpoint.
+`Theorems/C11T.lean` adds the channel side from the slab-and-bound model of C17 (`channels_unique`,
+`channel_reused_only_after_end`). `Theorems/TransferFits.lean` removes two of the four hypotheses the
+frame-cutting theorems of C06 made about the transfer performative's encodings: from the typed model,
+for every field content, writing the performative with `more := true` never yields fewer bytes
+(`flag_never_shortens`, for any Boolean field with default `false` of any composite: the interplay of
+"a default value is written as null" and "trailing nulls are dropped"), hence `p0 ≤ p1` and `p3 ≤ p2`
+(`transfer_fits`); that `more` is such a field, and the sixth, is a generated obligation
+(`transfer_more`). `Amqp.RecvCredit.resume` and `resume_reports_the_new_count` cover a receiver that
+detaches and resumes.
+
 *Driver* (`lean/Driver`) parses one line, runs the model, prints one canonical line. Errors are a
 small enum, maps are printed in wire order, byte strings in hex; nothing that came out of a hash
 map or a clock is compared.
@@ -258,6 +277,22 @@ existing modules: streams that report `Interrupted` at any read call, bodies bey
 `LazyValue` on every entry point and 600000 levels of nesting decoded in a child process (a stack
 overflow cannot be caught, the exit status is the verdict), `try_consume`, a stream whose shutdown
 fails when the idle time-out fires, and a burst of flows against one-slot queues.
+
+Added in the third round of seeded changes (§9, round 3): `ioread` (operation sequences on `IoReader`
+and `SliceReader` against `Amqp.IoRead`), `lsender` (a sending link accepted by a `LinkAcceptor`: link
+flows pipelined behind the peer's attach and buffered until the application accepts the link, then
+further grants; the transfers on the wire against the latest flow and against `Amqp.Credit`), routing
+histories in `ids` (attach / close by either side / transfer / a frame on a detached handle, the peer
+re-using handles from a small pool; every step against `Amqp.Routing`), and in the existing modules:
+`to_value` / `from_value` as the identity on every generated untyped value, valid variants read from
+a stream and variants with bodies beyond 64 KiB (`specenc`), deliveries cut by the link with one credit
+granted per delivery (`credit`), sender-settled deliveries and acknowledgement in batches in the
+credit streams, a detach-and-resume whose second attach carries another delivery-count
+(`recvcredit`), a refused intruder frame in the middle of a delivery after which the delivery goes on
+(`reasm`), transactional posts of two links with alternating frames (`txn`, also run for C10), unread
+deliveries queued ahead of the peer's detach (`life`), multi-frame deliveries to a mode-second
+receiver and split pre-settled sends on a mixed link (`settle`); `limits` (begin / end histories with
+holes) now also runs for C11.
 
 """
 
